@@ -335,9 +335,11 @@ class BaseDOELibrary(BaseDriverLibrary, Serializable):
         Returns:
             The output value and the Jacobian value.
         """
+        # The samples are not normalized:
+        # they must be normalized when the functions expect normalized inputs.
         return self._problem.evaluate_functions(
             design_vector=input_value,
-            preprocess_design_vector=False,
+            preprocess_design_vector=self._normalize_ds,
             design_vector_is_normalized=False,
             output_functions=self.__output_functions,
             jacobian_functions=self.__jacobian_functions,
